@@ -57,7 +57,7 @@ VARIANTS = ["alias", "noalias", "subquery", "qualified", "lower", "alias_as"]
 
 def gen_cases(tier: str, seed: int):
     r = random.Random(f"{seed}:C12")
-    n = 1000 if tier == "quick" else 20000
+    n = 2500 if tier == "quick" else 30000
     for _ in range(n):
         clauses = []
         nm = r.choice([0, 1, 1, 2, 3])
